@@ -208,6 +208,14 @@ def strStrip (s cs : String) : String :=
 def strReplace (s : String) (c : Char) (t : String) : String :=
   String.ofList (s.toList.flatMap (fun ch => if ch = c then t.toList else [ch]))
 
+/-! fifth batch -/
+
+/-- python `round(x)` of a float (one argument): the nearest integer, a tie goes to the EVEN neighbour -/
+def round (x : Rat) : Int :=
+  let fl := Rat.floor x
+  let r := x - (fl : Rat)
+  if r < 1 / 2 then fl else if 1 / 2 < r then fl + 1 else if fl % 2 = 0 then fl else fl + 1
+
 end Mofun.Generated.Py
 
 namespace Mofun.Generated.Code
@@ -745,5 +753,19 @@ def cifChargeReader : String :=
 /-- translated from `load_p1_cif` in mofun/atoms.py class Atoms (FRAGMENT: the name of the function that reads one coordinate) -/
 def cifCoordReader : String :=
   "tofloat"
+
+/-- the default `replace_fraction=1.0` of `replace_pattern_in_structure` -/
+def replaceUsesSample_default_replace_fraction : Rat := (Dec.toRat ⟨10, 1⟩)
+
+/-- translated from `replace_pattern_in_structure` in mofun/mofun.py (FRAGMENT: is only a sample of the matches replaced) -/
+def replaceUsesSample (replace_fraction : Rat) : Bool :=
+  (decide (replace_fraction < (Dec.toRat ⟨10, 1⟩)))
+
+/-- the default `replace_fraction=1.0` of `replace_pattern_in_structure` -/
+def replaceSampleSize_default_replace_fraction : Rat := (Dec.toRat ⟨10, 1⟩)
+
+/-- translated from `replace_pattern_in_structure` in mofun/mofun.py (FRAGMENT: the number of matches `random.sample` is asked for, `round(replace_fraction * len(match_positions))`) -/
+def replaceSampleSize (replace_fraction : Rat) (num_matches : Nat) : Int :=
+  (Py.round (replace_fraction * ((num_matches : Nat) : Rat)))
 
 end Mofun.Generated.Code
